@@ -61,7 +61,7 @@ def compare_build(ref, obs, parameter_mode=True):
                 continue   # identical computations are one shared object; values that do not take part in persistence may be either's
             if d['params'][pn] != exp[pn]:
                 add('C09', 'params', f'{n}: parameter {pn} = {d["params"][pn]} but the declared precedence gives {exp[pn]}',
-                    instance_ns='::'.join(t['ns']), file=t['inst']['file'])
+                    instance_ns='::'.join(t['ns']), file=t['inst']['file'], unpersisted=bool(unpersisted), slugkey=[t['slug'], t['key']])
         # --- C08: inputs ------------------------------------------------------------------------------------------
         obs_ids = set()
         bad = None
